@@ -166,6 +166,8 @@ func verifDrain() {
 func verifYield()          { runtime.Gosched(); time.Sleep(time.Millisecond) }
 func verifAllowBlock()     {}
 func verifInlineGo(on bool) {}
+func verifOnSync(f func())  {}
+func verifOnBlock(f func()) {}
 
 func verifThreadID() int {
 	if verifGID() == verifState.mainGID {
